@@ -44,6 +44,7 @@ import (
 	"github.com/ozontech/seq-db/logger"
 	"github.com/ozontech/seq-db/parser"
 	"github.com/ozontech/seq-db/seq"
+	"github.com/ozontech/seq-db/verifhook"
 
 	"verifharness/internal/vh"
 )
@@ -558,6 +559,10 @@ func runActive(e *activeEnv, h [][]meta, toks []tok, ids []seq.ID) string {
 		}
 		wg.Wait()
 	}
+	return activeState(a, toks, ids)
+}
+
+func activeState(a *frac.Active, toks []tok, ids []seq.ID) string {
 	mids, rids := a.MIDs.GetVals(), a.RIDs.GetVals()
 	all := make([]seq.ID, len(mids))
 	for i := range mids {
@@ -697,6 +702,7 @@ func histTags(h [][]int) (repeats int, tags []string) {
 // active cases are queued and executed in a child process: a panic inside an index worker goroutine must be an
 // observation, not the end of the harness
 type activeCase struct {
+	ch         *vh.Channel
 	req        string
 	nontrivial bool
 	tags       []string
@@ -753,18 +759,106 @@ func addActiveCase(ch *vh.Channel, e *activeEnv, h [][]meta, kind string, hi [][
 		rep = 1
 	}
 	tags = append(tags, fmt.Sprintf("bulks=%d", len(h)))
-	activeQueue = append(activeQueue, activeCase{req, rep > 0, tags})
+	activeQueue = append(activeQueue, activeCase{ch, req, rep > 0, tags})
+}
+
+// queryOf: every token and id of the bulks plus an unknown one of each, as driver arguments
+func queryOf(h [][]meta) (string, string) {
+	var tq []string
+	var ids []seq.ID
+	seenT, seenI := map[string]bool{}, map[seq.ID]bool{}
+	for _, b := range h {
+		for _, m := range b {
+			if !seenI[m.id()] {
+				seenI[m.id()] = true
+				ids = append(ids, m.id())
+			}
+			for _, t := range m.toks {
+				key := string(t.k) + ":" + string(t.v)
+				if !seenT[key] {
+					seenT[key] = true
+					tq = append(tq, hex.EncodeToString([]byte(key)))
+				}
+			}
+		}
+	}
+	tq = append(tq, hex.EncodeToString([]byte("nosuch:token")))
+	ids = append(ids, seq.ID{MID: 7, RID: 7})
+	return strings.Join(tq, ","), fmtIDs(ids)
+}
+
+// concurrent schedules: the bulks of a history are started in order, up to 3 index workers are held after
+// SetMultiple/Filter and published in a random order
+func concCases(ch *vh.Channel, r *vh.RNG, n int) {
+	for i := 0; i < n; i++ {
+		k := r.Range(1, 6)
+		u := genUniverse(r, k)
+		hi, kind := genHistory(r, k, r.Range(1, 5))
+		var h [][]meta
+		for _, idx := range hi {
+			if len(idx) == 0 {
+				continue // an empty bulk has no metas: the worker still passes the point, keep schedules simple
+			}
+			h = append(h, bulkOf(u, idx))
+		}
+		if len(h) == 0 {
+			continue
+		}
+		var evs []cev
+		pending, next, reordered := 0, 0, false
+		for next < len(h) || pending > 0 {
+			if next < len(h) && pending < 3 && (pending == 0 || r.Bool()) {
+				evs = append(evs, cev{start: true, bulk: h[next]})
+				next++
+				pending++
+			} else {
+				kk := r.Intn(pending)
+				if kk > 0 {
+					reordered = true
+				}
+				evs = append(evs, cev{k: kk})
+				pending--
+			}
+		}
+		tq, ids := queryOf(h)
+		rep, tags := histTags(hi)
+		tags = append(tags, "kind="+kind, fmt.Sprintf("bulks=%d", len(h)), fmt.Sprintf("reordered=%v", reordered))
+		activeQueue = append(activeQueue, activeCase{ch, fmt.Sprintf("conc %s %s %s", fmtEvs(evs), tq, ids), rep > 0 && reordered, tags})
+	}
 }
 
 // activeChildLine: "hist <history> <tokens> <ids>" -> state line of a real active fraction
 func activeChildLine(e *activeEnv, line string) string {
 	f := strings.Fields(line)
-	if len(f) != 4 || f[0] != "hist" {
+	if len(f) != 4 || (f[0] != "hist" && f[0] != "conc") {
 		return "bad-op"
 	}
-	h, err := parseHistory(f[1])
-	if err != nil {
-		return "bad-op"
+	var h [][]meta
+	var evs []cev
+	var err error
+	if f[0] == "hist" {
+		if h, err = parseHistory(f[1]); err != nil {
+			return "bad-op"
+		}
+	} else {
+		for _, p := range strings.Split(f[1], "|") {
+			switch {
+			case strings.HasPrefix(p, "S"):
+				b, err := parseBulk(p[1:])
+				if err != nil {
+					return "bad-op"
+				}
+				evs = append(evs, cev{start: true, bulk: b})
+			case strings.HasPrefix(p, "F"):
+				k, err := strconv.Atoi(p[1:])
+				if err != nil {
+					return "bad-op"
+				}
+				evs = append(evs, cev{k: k})
+			default:
+				return "bad-op"
+			}
+		}
 	}
 	var toks []tok
 	for _, hx := range strings.Split(f[2], ",") {
@@ -782,12 +876,86 @@ func activeChildLine(e *activeEnv, line string) string {
 	if err != nil {
 		return "bad-op"
 	}
+	if f[0] == "conc" {
+		return runActiveConc(e, evs, toks, ids)
+	}
 	return runActive(e, h, toks, ids)
+}
+
+// one event of a concurrent schedule: start a bulk (its index worker is held right after SetMultiple / Filter, at
+// the observation point c07.aidx.pos) or let the k-th held worker publish its collector
+type cev struct {
+	start bool
+	bulk  []meta
+	k     int
+}
+
+func fmtEvs(evs []cev) string {
+	p := make([]string, len(evs))
+	for i, e := range evs {
+		if e.start {
+			p[i] = "S" + fmtBulk(e.bulk)
+		} else {
+			p[i] = fmt.Sprintf("F%d", e.k)
+		}
+	}
+	return strings.Join(p, "|")
+}
+
+// runActiveConc forces the schedule on a real active fraction: bulks are started one at a time, each worker blocks at
+// the point after SetMultiple/Filter until the schedule publishes it.
+func runActiveConc(e *activeEnv, evs []cev, toks []tok, ids []seq.ID) string {
+	a := e.newActive()
+	defer a.Suicide()
+	arrive := make(chan chan struct{}, 16)
+	done := make(chan struct{}, 16)
+	verifhook.Set(func(name, _ string, _ []int64) {
+		switch name {
+		case "c07.aidx.pos":
+			rel := make(chan struct{})
+			arrive <- rel
+			<-rel
+		case "c07.aidx.done":
+			done <- struct{}{}
+		}
+	})
+	defer verifhook.Set(nil)
+	var pending []chan struct{}
+	var wg sync.WaitGroup
+	for _, ev := range evs {
+		if ev.start {
+			docs, metas := blocks(ev.bulk)
+			wg.Add(1)
+			if err := a.Append(docs, metas, &wg); err != nil {
+				return "err append"
+			}
+			select {
+			case rel := <-arrive:
+				pending = append(pending, rel)
+			case <-time.After(20 * time.Second):
+				return "err worker did not reach the point after SetMultiple"
+			}
+		} else if ev.k < len(pending) {
+			close(pending[ev.k])
+			pending = append(pending[:ev.k:ev.k], pending[ev.k+1:]...)
+			select {
+			case <-done:
+			case <-time.After(20 * time.Second):
+				return "err worker did not finish"
+			}
+		}
+	}
+	left := len(pending)
+	if left > 0 {
+		return "err schedule leaves workers blocked" // generator never does this
+	}
+	wg.Wait()
+	return strings.Replace(activeState(a, toks, ids), "ok ", fmt.Sprintf("ok pending=%d ", left), 1)
 }
 
 // flushActive runs the queued cases in a child process and feeds the channel; a history on which the child dies
 // twice is an implementation answer "died" (and, when it re-delivers documents, a violation of the property)
-func flushActive(ch *vh.Channel, rep *vh.Report) {
+func flushActive(rep *vh.Report) {
 	pending := activeQueue
 	activeQueue = nil
 	for len(pending) > 0 {
@@ -802,7 +970,7 @@ func flushActive(ch *vh.Channel, rep *vh.Report) {
 				died = i
 				break
 			}
-			ch.Add(pending[i].req, r, pending[i].nontrivial, pending[i].tags...)
+			pending[i].ch.Add(pending[i].req, r, pending[i].nontrivial, pending[i].tags...)
 		}
 		if died < 0 {
 			return
@@ -810,13 +978,13 @@ func flushActive(ch *vh.Channel, rep *vh.Report) {
 		c := pending[died]
 		r2, tail2 := runChild("active", []string{c.req}, 60*time.Second)
 		if r2[0] == "" {
-			ch.Add(c.req, "died", c.nontrivial, append(c.tags, "child-died")...)
+			c.ch.Add(c.req, "died", c.nontrivial, append(c.tags, "child-died")...)
 			if c.nontrivial {
 				rep.Violate(vh.Violation{Site: "frac/active_indexer.go:appendWorker", Class: "crash-on-redelivery",
 					What: "indexing this history kills the process (twice): " + strings.ReplaceAll(tail2+errTail, "\n", " "), Replay: []string{c.req}})
 			}
 		} else {
-			ch.Add(c.req, r2[0], c.nontrivial, c.tags...)
+			c.ch.Add(c.req, r2[0], c.nontrivial, c.tags...)
 		}
 		pending = pending[died+1:]
 	}
@@ -985,7 +1153,9 @@ type sysCase struct {
 	ops []string // B<i.j.k>  C<n>:<i.j.k>  S  R
 }
 
-func (c sysCase) String() string { return fmt.Sprintf("sys docs=%d ops=%s", c.k, strings.Join(c.ops, ";")) }
+func (c sysCase) String() string {
+	return fmt.Sprintf("sys docs=%d ops=%s", c.k, strings.Join(c.ops, ";"))
+}
 
 func parseSys(line string) (sysCase, error) {
 	var c sysCase
@@ -1123,7 +1293,7 @@ func checkStore(s *sysStore, k int, have map[int]bool, crossFraction bool, stage
 			}
 			params := processor.SearchParams{AST: ast, From: 0, To: seq.MID(math.MaxInt64), Limit: 1000, WithTotal: true, Order: order,
 				HistInterval: sysInterval,
-				AggQ: []processor.AggQuery{{GroupBy: &parser.Literal{Field: "service", Terms: []parser.Term{{Kind: parser.TermSymbol, Data: "*"}}}, Func: seq.AggFuncCount}}}
+				AggQ:         []processor.AggQuery{{GroupBy: &parser.Literal{Field: "service", Terms: []parser.Term{{Kind: parser.TermSymbol, Data: "*"}}}, Func: seq.AggFuncCount}}}
 			qpr, err := s.searcher.SearchDocs(ctx, fracs, params)
 			if err != nil {
 				return &sysViolation{"search-error", fmt.Sprintf("%s: query %q: %v", stage, qu.q, err)}
@@ -1443,6 +1613,7 @@ func main() {
 	chColl := vh.NewChannel("collector.filter", "real metaDataCollector (Init, AppendMeta, Filter(appended), GroupLIDsByToken) vs SV.Collector.collect/filter/groupLIDsByToken: stats, TokensValues, FieldsLengths, IDs, tokensInDocs, tokensIndex, packed positions, groups; non-trivial = Filter keeps some but not all metas")
 	chSet := vh.NewChannel("docspositions.setmultiple", "DocsPositions.SetMultiple vs SV.Collector.setMultiple: appended slice and resulting map; non-trivial = some but not all ids rejected")
 	chAct := vh.NewChannel("active.history", "a real frac.Active fed bulk by bulk vs SV.Collector.run: MIDs/RIDs in LID order, DocsTotal/DocsRaw/From/To, DocBlocks, sorted LIDs of every token, DocsPositions and fetched payload of every id; non-trivial = the history re-delivers at least one document")
+	chConc := vh.NewChannel("active.concurrent", "a real frac.Active under a forced schedule (bulks started one by one, each index worker held at the point after SetMultiple/Filter, then published in the scheduled order) vs SV.Collector.crun: same observations as active.history; non-trivial = a re-delivery whose collectors are published out of start order")
 	chRep := vh.NewChannel("qpr.repetitions", "seq.removeRepetitionsAdvanced vs SV.Repetitions.removeRepetitions on sorted id lists: kept entries, removed count, corrected histogram; non-trivial = something removed")
 	chMerge := vh.NewChannel("qpr.merge", "seq.MergeQPRs vs SV.Repetitions.mergeQPRs: merged ids (sources not compared: sort.Sort is unstable), total, histogram; non-trivial = an id occurs in two partial results")
 	orc := vh.NewOracle("redelivery.system", "real FracManager/Searcher/Fetcher: after every op of a history (bulks, whole/partial/concurrent repeats, seal, restart) each id is listed once in both orders, total/histogram (and aggregation, DocsTotal when all repeats hit the holding fraction) count it once, every document is fetched with its original bytes; non-trivial = history with a re-delivery")
@@ -1489,6 +1660,8 @@ func main() {
 					}
 				}
 				addCollCase(chColl, uint32(b), ms, app, lids, "replay")
+			case len(f) == 4 && f[0] == "conc":
+				activeQueue = append(activeQueue, activeCase{chConc, l, true, []string{"replay"}})
 			case len(f) == 4 && f[0] == "hist":
 				if h, err := parseHistory(f[1]); err == nil {
 					addActiveCase(chAct, env, h, "replay", nil)
@@ -1499,22 +1672,23 @@ func main() {
 		// collector: exhaustive small scope + random
 		collectorExhaustive(chColl, 1, 1, 0)
 		collectorExhaustive(chColl, 2, 1, 0)
+		collectorExhaustive(chColl, 3, 1, 0)
 		if o.Thorough() {
-			collectorExhaustive(chColl, 3, 1, 0)
-			collectorExhaustive(chColl, 4, 7, int(o.Seed%7))
+			collectorExhaustive(chColl, 4, 3, int(o.Seed%3))
 		} else {
-			collectorExhaustive(chColl, 3, 3, int(o.Seed%3))
+			collectorExhaustive(chColl, 4, 40, int(o.Seed%40))
 		}
-		collectorRandom(chColl, rng.Fork(), o.Pick(400, 6000))
-		setMultipleCases(chSet, rng.Fork(), o.Pick(500, 8000))
-		activeCases(chAct, env, rng.Fork(), o.Pick(150, 2500))
-		repetitionCases(chRep, rng.Fork(), o.Pick(5, 7), o.Pick(300, 5000))
-		mergeCases(chMerge, rng.Fork(), o.Pick(400, 8000))
+		collectorRandom(chColl, rng.Fork(), o.Pick(2000, 20000))
+		setMultipleCases(chSet, rng.Fork(), o.Pick(2000, 20000))
+		activeCases(chAct, env, rng.Fork(), o.Pick(1500, 8000))
+		concCases(chConc, rng.Fork(), o.Pick(400, 3000))
+		repetitionCases(chRep, rng.Fork(), o.Pick(6, 8), o.Pick(1500, 15000))
+		mergeCases(chMerge, rng.Fork(), o.Pick(2000, 20000))
 
 		// system oracle: directed histories first, then random ones
 		directed := []sysCase{
-			{k: 4, ops: []string{"B0.1", "B0.1", "S", "R"}},                       // whole-bulk repeat
-			{k: 6, ops: []string{"B0.1.2", "B1.3.2.4", "B5.0", "S", "R"}},          // partial overlaps at different positions
+			{k: 4, ops: []string{"B0.1", "B0.1", "S", "R"}},                         // whole-bulk repeat
+			{k: 6, ops: []string{"B0.1.2", "B1.3.2.4", "B5.0", "S", "R"}},           // partial overlaps at different positions
 			{k: 5, ops: []string{"B0.1.2.3.4", "B4", "B0", "B2.1", "R", "B3", "S"}}, // single known documents, restart with replay
 			{k: 4, ops: []string{"B0.1", "C4:0.1", "C3:2.3", "S"}},                  // concurrent repeats
 			{k: 4, ops: []string{"B0.1.2", "S", "B1.2.3", "S", "R"}},                // repeat lands in another fraction
@@ -1525,7 +1699,7 @@ func main() {
 			sysTags = append(sysTags, []string{"gen=directed", "repeat"})
 		}
 		r := rng.Fork()
-		for i := 0; i < o.Pick(25, 300); i++ {
+		for i := 0; i < o.Pick(250, 1500); i++ {
 			c, tags := genSys(r, 10)
 			sysCases = append(sysCases, c)
 			sysTags = append(sysTags, append(tags, "gen=random"))
@@ -1534,14 +1708,15 @@ func main() {
 	if len(sysCases) > 0 {
 		systemOracle(rep, orc, sysCases, sysTags)
 	}
-	flushActive(chAct, rep)
+	flushActive(rep)
 	chColl.Exhaustive = o.Replay == ""
 	rep.AddChannel(chColl, o.Driver)
 	rep.AddChannel(chSet, o.Driver)
 	rep.AddChannel(chAct, o.Driver)
+	rep.AddChannel(chConc, o.Driver)
 	rep.AddChannel(chRep, o.Driver)
 	rep.AddChannel(chMerge, o.Driver)
 	rep.AddOracle(orc)
-	rep.Note("collector.filter is exhaustive for bulks of up to %d metas over %d token patterns, every nested pattern and every subset of ids as `appended`", o.Pick(2, 3), len(tokChoices))
+	rep.Note("collector.filter is exhaustive for bulks of up to 3 metas over %d token patterns, every nested pattern and every subset of ids as `appended` (4 metas: every %d-th case)", len(tokChoices), o.Pick(40, 3))
 	rep.Write(o.Out)
 }
